@@ -13,9 +13,9 @@ namespace DD
 /-! ### explicit reordering (C07) -/
 
 /-- what C07 gives for a reordering that returns normally -/
-theorem minv_of_reorder {off : Bool} {ext : Nat → Nat} {m m' : Mgr} (hm : MInv off ext m)
+theorem minv_of_reorder {off : Bool} {ext : Nat → Nat} {m m' : Mgr} (hm : AutoMInv off ext m)
     (hR : ReorderInv ext m') (hs : m'.sched = []) (hrel : ReorderRel ext m m') :
-    MInv off ext m' ∧ HeldExt m.tbl m'.tbl ext := by
+    AutoMInv off ext m' ∧ HeldExt m.tbl m'.tbl ext := by
   refine ⟨⟨hR.inv, hR.order, hR.refExact, by rw [hrel.ctx]; exact hm.ctx, hs,
     by rw [hrel.roots]; exact hm.roots, hm.mode.transfer hrel.lastLen (by rw [hrel.nvars]; exact Nat.le_refl _)⟩, ?_⟩
   intro u _ hpos
@@ -63,13 +63,13 @@ theorem RefExact.ext_unique {m : Mgr} {ext ext' : Nat → Nat} (h : RefExact m e
     have h2 := h'.cnt k c hr
     omega
 
-theorem MInv.dynInv {ext : Nat → Nat} {m : Mgr} (h : MInv false ext m) : DynInv ext m :=
+theorem AutoMInv.dynInv {ext : Nat → Nat} {m : Mgr} (h : AutoMInv false ext m) : DynInv ext m :=
   ⟨h.inv, h.order, h.counts, h.ctx, h.sched, (fun r hr => by rw [h.roots] at hr; cases hr), h.mode.2 rfl⟩
 
 /-- what the caller of a decorated operation observes (C09) is what the autoref layer needs -/
 theorem minv_of_dynPost {α : Type} {ext : Nat → Nat} {m m' : Mgr} {Doc : Tbl → α → Tbl → Prop} {r : α}
-    (hm : MInv false ext m) (hp : DynPostG ext Doc m r m') :
-    MInv false ext m' ∧ HeldExt m.tbl m'.tbl ext :=
+    (hm : AutoMInv false ext m) (hp : DynPostG ext Doc m r m') :
+    AutoMInv false ext m' ∧ HeldExt m.tbl m'.tbl ext :=
   ⟨⟨hp.inv.inv, hp.inv.order, hp.inv.refs, hp.inv.ctx, hp.inv.sched, by rw [hp.roots]; exact hm.roots,
     ⟨(fun h => nomatch h), fun _ => hp.inv.nvars⟩⟩,
    fun u _ hpos => hp.held u (Or.inr hpos)⟩
